@@ -250,9 +250,10 @@ def _dump(evs, path):
             fh.write(json.dumps(e, separators=(",", ":")) + "\n")
 
 
-def fromcode_failure(id_, exc):
+def fromcode_failure(id_, exc, code=None):
     return {"id": id_, "ver": VER, "kind": "fromcode_fail", "exc_type": type(exc).__name__,
-            "exc": "%s: %s" % (type(exc).__name__, exc)}
+            "exc": "%s: %s" % (type(exc).__name__, exc),
+            "flags": D.flag_bits(code.co_flags) if code is not None else []}
 
 
 def entry_inside_instruction(code):
@@ -307,7 +308,7 @@ def corpus_to_file(files, path, optimize=0, max_units=4000, mode="exec", normali
                 cd = CodeData.from_code(c)
             except BaseException as ex:  # noqa
                 st["from_code_exc"] += 1
-                evs.append(fromcode_failure(id_ + ":dec", ex))
+                evs.append(fromcode_failure(id_ + ":dec", ex, c))
                 continue
             ev, _ = encode_event(cd, id_ + ":dec", "decoded", orig=c)
             ev["rt"]["inner_entry"] = entry_inside_instruction(c)
@@ -338,7 +339,7 @@ def sources_to_file(sources, path, normalized=True):
             try:
                 cd = CodeData.from_code(c)
             except BaseException as ex:  # noqa
-                evs.append(fromcode_failure(id_ + ":dec", ex))
+                evs.append(fromcode_failure(id_ + ":dec", ex, c))
                 continue
             ev, _ = encode_event(cd, id_ + ":dec", "decoded", orig=c)
             ev["rt"]["inner_entry"] = entry_inside_instruction(c)
@@ -369,10 +370,21 @@ def graph_data(pads, jumps, line=1):
     return CodeData(blocks=tuple(blocks), filename="<graph>", first_line_number=line, name="g", stacksize=1)
 
 
+def freeshift_data(ncell, line=1):
+    """MC_Relax family "freeshift": ncell cell variables, a load of a free variable (its operand is
+    ncell + 0), a jump over it"""
+    from code_data import Args, Cellvar, CodeData, Freevar, Function, Instruction, Jump
+
+    b0 = tuple(Instruction("LOAD_CLOSURE", Cellvar("c%d" % i), line_number=line) for i in range(ncell))
+    b0 += (Instruction("LOAD_DEREF", Freevar("f"), line_number=line), Instruction("JUMP_ABSOLUTE", Jump(1), line_number=line))
+    return CodeData(blocks=(b0, (Instruction("NOP", line_number=line),)), filename="<graph>", first_line_number=line,
+                    name="g", stacksize=ncell + 1, type=Function(Args()), freevars=("f",))
+
+
 def graphs_to_file(cases, path):
     evs = []
     for c in cases:
-        cd = graph_data(c["pads"], c["jumps"])
+        cd = freeshift_data(c["pads"][0]) if c.get("family") == "freeshift" else graph_data(c["pads"], c["jumps"])
         ev, code = encode_event(cd, c["id"], "hand")
         ev["model"] = {"has": True, "passes": c.get("passes", -1), "jumpargs": c.get("jumpargs", [])}
         evs.append(ev)
@@ -390,7 +402,7 @@ def units_to_file(cases, path):
         try:
             cd = CodeData.from_code(code)
         except BaseException as ex:  # noqa
-            evs.append(fromcode_failure(c["id"], ex))
+            evs.append(fromcode_failure(c["id"], ex, code))
             continue
         ev, _ = encode_event(cd, c["id"], "decoded", orig=code)
         evs.append(ev)
@@ -413,6 +425,26 @@ def overrides_to_file(cases, path):
         ev, _ = encode_event(cd, c["id"], "hand")
         ev["model"] = {"has": False, "passes": -1, "jumpargs": []}
         ev["model_raises"] = c.get("raises", False)
+        evs.append(ev)
+    _dump(evs, path)
+    return len(evs)
+
+
+def lineprogs_to_file(cases, path, first=10):
+    """MC_Lines line programs as hand-built data: every run is `units` one-unit instructions that
+    carry the run's line (None where the model says "no line"); the encoder must synthesise a line
+    table that CPython reads back as exactly those lines (C03, per-instruction lines)"""
+    from code_data import CodeData, Instruction
+
+    evs = []
+    for c in cases:
+        ins = []
+        for units, line in c["prog"]:
+            ln = None if line == NONE else first + line
+            ins.extend(Instruction("NOP", line_number=ln) for _ in range(units))
+        ins.append(Instruction("RETURN_VALUE", line_number=ins[-1].line_number))
+        cd = CodeData(blocks=(tuple(ins),), filename="<lines>", first_line_number=first, name="l", stacksize=1)
+        ev, _ = encode_event(cd, c["id"], "hand")
         evs.append(ev)
     _dump(evs, path)
     return len(evs)
